@@ -89,6 +89,15 @@ func checkC08(c *Ctx) {
 			add("bad-line-first", []byte("{} {}\n"+strings.Repeat("{}\n", k)))
 		}
 	}
+	// maximally dense endings: tiny documents and runs of blank lines (every LF is a
+	// structural) so that the last index buffer is filled to the brim by the final blocks
+	for k := 440; k <= 560; k += 4 {
+		for _, m := range []int{0, 60, 100, 126, 130, 190} {
+			lead := `{"k":"` + strings.Repeat("x", 62-k%7) + `"}` + "\n\n"
+			add("dense-tail", []byte(lead+strings.Repeat("{}\n", k)+strings.Repeat("\n", m)+"{}"))
+			add("dense-tail", []byte(strings.Repeat("[]\n", k)+strings.Repeat("\n", m)+"[1]\n"))
+		}
+	}
 	// newline inside a string is not a delimiter (and is a control character)
 	for _, s := range []string{"{\"a\":\"x\ny\"}", "[\"\\n\"]\n[\"b\"]", "[1]\n\n\n[2]", "[1]\r\n[2]\r\n", "[1]\r[2]", "[1]\n [2]", "[1] \n[2]", "[1]\n]", "[1]\n,", "\n", "\n\n", " \n ", "[1]", "[1]\n"} {
 		add("special", []byte(s))
